@@ -43,7 +43,7 @@ func (Prop) Assumptions() []string {
 
 func (Prop) Plan(tier string) []lib.Workload {
 	if tier == "thorough" {
-		return []lib.Workload{{Name: "walk", Cases: 1200, MinNontrivial: 400, Batches: 64}}
+		return []lib.Workload{{Name: "walk", Cases: 1000, MinNontrivial: 400, Batches: 64}}
 	}
 	return []lib.Workload{{Name: "walk", Cases: 36, MinNontrivial: 150}}
 }
